@@ -12,30 +12,129 @@ import (
 )
 
 // ---------------------------------------------------------------- C12 (attribution half)
+//
+// go/parser cannot run symbolically. Each scenario is rendered as Go source;
+// natively that source is parsed by the real go/parser, under the engine the
+// *ast.File is built by the harness from the same source text (positions are
+// the byte offsets of the pieces in that text, the line table is the text's),
+// following go/parser's comment-attachment rules: a comment group that ends on
+// the line directly above a declaration is its Doc (for an ungrouped
+// declaration: the GenDecl's), a comment on the declaration's last line is its
+// Comment, every other comment is only in File.Comments. The witness replay
+// compares all observations of both runs, which validates the construction.
 
-// Layout of one struct field in the scenario source.
+type vSrc struct {
+	text string
+	tf   *token.File
+}
+
+func vIndexFrom(s, sub string, from int) int {
+	for i := from; i+len(sub) <= len(s); i++ {
+		if s[i:i+len(sub)] == sub {
+			return i
+		}
+	}
+	return -1
+}
+
+func vNewSrc(fset *token.FileSet, text string) *vSrc {
+	tf := fset.AddFile("/src/p/p.go", -1, len(text))
+	tf.SetLinesForContent([]byte(text))
+	return &vSrc{text: text, tf: tf}
+}
+
+// pos returns the position of the first occurrence of sub at or after `after`.
+func (s *vSrc) pos(sub string, after token.Pos) token.Pos {
+	from := 0
+	if after.IsValid() {
+		from = int(after) - s.tf.Base()
+	}
+	i := vIndexFrom(s.text, sub, from)
+	if i < 0 {
+		panic("harness: piece not found in scenario source: " + sub)
+	}
+	return token.Pos(s.tf.Base() + i)
+}
+
+func (s *vSrc) group(text string, after token.Pos) *ast.CommentGroup {
+	return &ast.CommentGroup{List: []*ast.Comment{{Slash: s.pos(text, after), Text: text}}}
+}
+
+func (s *vSrc) file() *ast.File {
+	return &ast.File{Package: s.pos("package p", token.NoPos), Name: &ast.Ident{NamePos: s.pos("package p", token.NoPos) + 8, Name: "p"},
+		FileStart: token.Pos(s.tf.Base()), FileEnd: token.Pos(s.tf.Base() + len(s.text))}
+}
+
+// Layout of one struct field / declaration in a scenario.
 type vFieldLayout struct {
-	doc      int  // 0 none, 1 attached (ends on the line directly above), 2 detached (a blank line in between)
-	trailing bool // a // comment on the field's own line
+	doc       int  // 0 none, 1 attached // comment, 2 detached // comment (blank line in between), 3 attached two-line /* */ comment
+	trailing  bool // a // comment at the end of the declaration's (last) line
+	multiline bool // the declaration spans three lines (a field of anonymous struct type)
 }
 
 func vNum(i int) string { return string([]byte{'0' + byte(i)}) }
 
-// vAttrSource renders the scenario as Go source (used natively, parsed by the real go/parser).
-func vAttrSource(typeDoc bool, fields []vFieldLayout) string {
+func vDocText(indent string, i, doc int) string {
+	switch doc {
+	case 1:
+		return indent + "// d" + vNum(i) + "\n"
+	case 2:
+		return indent + "// x" + vNum(i) + "\n\n"
+	case 3:
+		return indent + "/* m" + vNum(i) + "a\n" + indent + "m" + vNum(i) + "b */\n"
+	}
+	return ""
+}
+
+func vWantDoc(i, doc int) []string {
+	switch doc {
+	case 1:
+		return []string{"d" + vNum(i)}
+	case 3:
+		return []string{"m" + vNum(i) + "a", "m" + vNum(i) + "b"}
+	}
+	return nil
+}
+
+// vSameLines compares modulo surrounding blanks and tabs (the statement does not
+// say how the indentation inside a block comment is treated).
+func vSameLines(a, b []string) bool {
+	if len(a) != len(b) {
+		return false
+	}
+	for i := range a {
+		x := a[i]
+		for len(x) > 0 && (x[0] == ' ' || x[0] == '\t') {
+			x = x[1:]
+		}
+		for len(x) > 0 && (x[len(x)-1] == ' ' || x[len(x)-1] == '\t') {
+			x = x[:len(x)-1]
+		}
+		if x != b[i] {
+			return false
+		}
+	}
+	return true
+}
+
+// vAttrSource: a struct type with the given fields.
+func vAttrSource(typeDoc, braceComment bool, fields []vFieldLayout) string {
 	s := "package p\n\n"
 	if typeDoc {
 		s += "// T doc\n"
 	}
-	s += "type T struct {\n"
+	s += "type T struct {"
+	if braceComment {
+		s += " // brace"
+	}
+	s += "\n"
 	for i, f := range fields {
-		switch f.doc {
-		case 1:
-			s += "\t// d" + vNum(i) + "\n"
-		case 2:
-			s += "\t// x" + vNum(i) + "\n\n"
+		s += vDocText("\t", i, f.doc)
+		if f.multiline {
+			s += "\tF" + vNum(i) + " struct {\n\t\tX" + vNum(i) + " int\n\t}"
+		} else {
+			s += "\tF" + vNum(i) + " int"
 		}
-		s += "\tF" + vNum(i) + " int"
 		if f.trailing {
 			s += " // t" + vNum(i)
 		}
@@ -45,86 +144,84 @@ func vAttrSource(typeDoc bool, fields []vFieldLayout) string {
 	return s
 }
 
-// vAttrAST builds, with the same line layout, the AST that go/parser produces
-// for vAttrSource (used under the engine, where the parser cannot run): doc and
-// trailing comments attached to their Field / GenDecl, detached comments only
-// in File.Comments. The witness replay compares every observation with the
-// native run on the really parsed file, which validates this construction.
-func vAttrAST(fset *token.FileSet, typeDoc bool, fields []vFieldLayout) (*ast.File, []token.Pos, token.Pos) {
-	const width = 100
-	nlines := 8 + 4*len(fields)
-	tf := fset.AddFile("/src/p/p.go", -1, nlines*width)
-	lines := make([]int, nlines)
-	for i := range lines {
-		lines[i] = i * width
-	}
-	tf.SetLines(lines)
-	at := func(line, col int) token.Pos { return token.Pos(tf.Base() + (line-1)*width + col) }
-	group := func(line, col int, text string) *ast.CommentGroup {
-		return &ast.CommentGroup{List: []*ast.Comment{{Slash: at(line, col), Text: text}}}
-	}
-	f := &ast.File{Package: at(1, 0), Name: &ast.Ident{NamePos: at(1, 8), Name: "p"}, FileStart: token.Pos(tf.Base()), FileEnd: token.Pos(tf.Base() + nlines*width)}
-	line := 3
-	gd := &ast.GenDecl{Tok: token.TYPE}
+func vAttrAST(fset *token.FileSet, typeDoc, braceComment bool, fields []vFieldLayout) (*ast.File, []token.Pos, token.Pos) {
+	src := vNewSrc(fset, vAttrSource(typeDoc, braceComment, fields))
+	f := src.file()
+	gd := &ast.GenDecl{Tok: token.TYPE, TokPos: src.pos("type T struct", token.NoPos)}
 	if typeDoc {
-		gd.Doc = group(line, 0, "// T doc")
+		gd.Doc = src.group("// T doc", token.NoPos)
 		f.Comments = append(f.Comments, gd.Doc)
-		line++
 	}
-	gd.TokPos = at(line, 0)
-	tname := &ast.Ident{NamePos: at(line, 5), Name: "T"}
-	st := &ast.StructType{Struct: at(line, 7), Fields: &ast.FieldList{Opening: at(line, 14)}}
-	line++
+	tname := &ast.Ident{NamePos: gd.TokPos + 5, Name: "T"}
+	st := &ast.StructType{Struct: gd.TokPos + 7, Fields: &ast.FieldList{Opening: gd.TokPos + 14}}
+	if braceComment {
+		f.Comments = append(f.Comments, src.group("// brace", token.NoPos))
+	}
 	var fieldPos []token.Pos
 	for i, fl := range fields {
 		fd := &ast.Field{}
+		namePos := src.pos("\tF"+vNum(i)+" ", token.NoPos) + 1
 		switch fl.doc {
 		case 1:
-			fd.Doc = group(line, 1, "// d"+vNum(i))
+			fd.Doc = src.group("// d"+vNum(i), token.NoPos)
 			f.Comments = append(f.Comments, fd.Doc)
-			line++
 		case 2:
-			f.Comments = append(f.Comments, group(line, 1, "// x"+vNum(i)))
-			line += 2
+			f.Comments = append(f.Comments, src.group("// x"+vNum(i), token.NoPos))
+		case 3:
+			fd.Doc = src.group("/* m"+vNum(i)+"a\n\tm"+vNum(i)+"b */", token.NoPos)
+			f.Comments = append(f.Comments, fd.Doc)
 		}
-		fd.Names = []*ast.Ident{{NamePos: at(line, 1), Name: "F" + vNum(i)}}
-		fd.Type = &ast.Ident{NamePos: at(line, 4), Name: "int"}
+		fd.Names = []*ast.Ident{{NamePos: namePos, Name: "F" + vNum(i)}}
+		if fl.multiline {
+			inner := &ast.Field{Names: []*ast.Ident{{NamePos: src.pos("X"+vNum(i)+" int", namePos), Name: "X" + vNum(i)}}}
+			inner.Type = &ast.Ident{NamePos: inner.Names[0].NamePos + 3, Name: "int"}
+			fd.Type = &ast.StructType{Struct: namePos + 3, Fields: &ast.FieldList{Opening: namePos + 10, List: []*ast.Field{inner}, Closing: src.pos("\t}", namePos) + 1}}
+		} else {
+			fd.Type = &ast.Ident{NamePos: namePos + 3, Name: "int"}
+		}
 		if fl.trailing {
-			fd.Comment = group(line, 8, "// t"+vNum(i))
+			fd.Comment = src.group("// t"+vNum(i), namePos)
 			f.Comments = append(f.Comments, fd.Comment)
 		}
-		fieldPos = append(fieldPos, fd.Names[0].NamePos)
+		fieldPos = append(fieldPos, namePos)
 		st.Fields.List = append(st.Fields.List, fd)
-		line++
 	}
-	st.Fields.Closing = at(line, 0)
+	st.Fields.Closing = token.Pos(src.tf.Base() + len(src.text) - 2)
 	gd.Specs = []ast.Spec{&ast.TypeSpec{Name: tname, Type: st}}
 	f.Decls = []ast.Decl{gd}
 	return f, fieldPos, tname.NamePos
 }
 
-// Verif_C12_Attribution: a struct type (with or without its own doc comment)
-// with k fields, each field symbolically with no doc / an attached doc comment
-// / a detached comment above it, and with or without a trailing comment. For
-// every field: Doc(pos) is exactly the attached doc comment (nothing if there
-// is none - in particular never the previous field's trailing comment, and
-// never a detached comment), Comment(pos) exactly the trailing comment; the
-// type's own Doc is its doc comment.
+func vNewPkgFor(fset *token.FileSet, file *ast.File) *pkgInfo {
+	tpkg := types.NewPackage("example.com/m/p", "p")
+	pp := &packages.Package{PkgPath: tpkg.Path(), Name: "p", Types: tpkg, Fset: fset, Syntax: []*ast.File{file},
+		TypesInfo: &types.Info{Defs: map[*ast.Ident]types.Object{}, Types: map[ast.Expr]types.TypeAndValue{}}}
+	return newPkg(pp, VerifNewUniverse(fset, map[string]Package{}, map[string]bool{}, nil, "")).(*pkgInfo)
+}
+
+// Verif_C12_Attribution: a struct type (own doc comment and a comment behind
+// its opening brace symbolic) with k fields; each field symbolically without
+// doc / with an attached // doc / with a detached comment / with an attached
+// two-line block comment, with or without a trailing comment, single-line or
+// spanning three lines. For every field: Doc(pos) is exactly the comment group
+// directly above it (nothing if there is none - never the previous field's
+// trailing comment, a detached comment or the comment behind the brace);
+// Comment(pos) of a single-line field is exactly its trailing comment.
 func Verif_C12_Attribution(k int) {
-	typeDoc := verifsym.Bool()
+	typeDoc, braceComment := verifsym.Bool(), verifsym.Bool()
 	fields := make([]vFieldLayout, k)
 	for i := range fields {
-		fields[i] = vFieldLayout{doc: verifsym.IntRange(0, 2), trailing: verifsym.Bool()}
+		fields[i] = vFieldLayout{doc: verifsym.IntRange(0, 3), trailing: verifsym.Bool(), multiline: verifsym.Bool()}
 	}
 	fset := token.NewFileSet()
 	var file *ast.File
 	var fieldPos []token.Pos
 	var typePos token.Pos
 	if verifsym.Symbolic() {
-		file, fieldPos, typePos = vAttrAST(fset, typeDoc, fields)
+		file, fieldPos, typePos = vAttrAST(fset, typeDoc, braceComment, fields)
 	} else {
 		var err error
-		file, err = parser.ParseFile(fset, "/src/p/p.go", vAttrSource(typeDoc, fields), parser.ParseComments)
+		file, err = parser.ParseFile(fset, "/src/p/p.go", vAttrSource(typeDoc, braceComment, fields), parser.ParseComments)
 		if err != nil {
 			panic(err)
 		}
@@ -134,11 +231,7 @@ func Verif_C12_Attribution(k int) {
 			fieldPos = append(fieldPos, fd.Names[0].NamePos)
 		}
 	}
-	tpkg := types.NewPackage("example.com/m/p", "p")
-	pp := &packages.Package{PkgPath: tpkg.Path(), Name: "p", Types: tpkg, Fset: fset, Syntax: []*ast.File{file},
-		TypesInfo: &types.Info{Defs: map[*ast.Ident]types.Object{}, Types: map[ast.Expr]types.TypeAndValue{}}}
-	u := VerifNewUniverse(fset, map[string]Package{}, map[string]bool{}, nil, "")
-	p := newPkg(pp, u)
+	p := vNewPkgFor(fset, file)
 
 	_, tdoc := p.Doc(typePos)
 	if typeDoc {
@@ -149,15 +242,18 @@ func Verif_C12_Attribution(k int) {
 	for i, fl := range fields {
 		_, doc := p.Doc(fieldPos[i])
 		cm := p.Comment(fieldPos[i])
-		if fl.doc == 1 {
-			verifsym.Assert(len(doc) == 1 && doc[0] == "d"+vNum(i), "Doc is not exactly the comment group directly above the declaration")
+		want := vWantDoc(i, fl.doc)
+		if want != nil {
+			verifsym.Assert(vSameLines(doc, want), "Doc is not exactly the comment group directly above the declaration")
 		} else {
-			verifsym.Assert(len(doc) == 0, "a declaration without doc comment gets documentation (previous line's trailing comment or a detached comment)")
+			verifsym.Assert(len(doc) == 0, "a declaration without doc comment gets documentation (previous declaration's trailing comment, a detached comment or the comment behind the brace)")
 		}
-		if fl.trailing {
-			verifsym.Assert(len(cm) == 1 && cm[0] == "t"+vNum(i), "Comment is not exactly the trailing comment on the declaration's line")
-		} else {
-			verifsym.Assert(len(cm) == 0, "a declaration without trailing comment gets one")
+		if !fl.multiline {
+			if fl.trailing {
+				verifsym.Assert(len(cm) == 1 && cm[0] == "t"+vNum(i), "Comment is not exactly the trailing comment on the declaration's line")
+			} else {
+				verifsym.Assert(len(cm) == 0, "a declaration without trailing comment gets one")
+			}
 		}
 		verifsym.Observe("doc", doc)
 		verifsym.Observe("comment", cm)
